@@ -105,7 +105,7 @@ func TestC07(t *testing.T) {
 	s := hx.Start(t, "C07")
 	defer s.Finish()
 	s.Guard(func() { Cfg() })
-	c07Part.Run(s, hx.PerShard(hx.Pick(16000, 400000)))
+	c07Part.Run(s, hx.PerShard(hx.Pick(64000, 800000)))
 }
 
 // ------------------------------------------------------------------ C11 map to scalar field
@@ -219,5 +219,5 @@ func TestC11(t *testing.T) {
 	s := hx.Start(t, "C11")
 	defer s.Finish()
 	s.Guard(func() { Cfg() })
-	c11Part.Run(s, hx.PerShard(hx.Pick(16000, 400000)))
+	c11Part.Run(s, hx.PerShard(hx.Pick(64000, 800000)))
 }
